@@ -19,6 +19,7 @@ Partial aspects
 import KafkaVerif.Lemmas.GroupInv
 import KafkaVerif.Lemmas.GroupHb
 import KafkaVerif.Lemmas.GroupHbAlive
+import KafkaVerif.Lemmas.GroupResp
 import KafkaVerif.Gen.GroupFacts
 
 namespace KV.Group.C15
@@ -390,5 +391,38 @@ theorem ctx_cancelled_on_topic_vanished (c : Cfg) (s s1 : St) (g t n0 : Nat) (a 
     subst hcg
     simp [setW, hlt]
   · cases h
+
+/-! ### the coordinator's answers as the run loop sees them: error codes ON THE WIRE
+
+The environment events of the group-run LTS carry the error class of each coordinator answer.  For the byte-level path these
+theorems say what class the real `Conn` derives from the response bytes: the conn builder's regenerated model of the `Conn`
+operations (`ConnOps.opRead` over the parser programs re-extracted from findcoordinator.go / joingroup.go / syncgroup.go /
+heartbeat.go / leavegroup.go) run on the Kafka layouts (`Lemmas/GroupResp.lean`; ranges: strings < 32 KiB, counts < 2³¹). -/
+section WireAnswers
+open KV.GroupResp KV.ConnOps KV.GroupWire
+
+/-- FindCoordinator v0, JoinGroup v1, SyncGroup v0: the call fails with exactly the response's error code, succeeds iff it
+is 0, and consumes the whole frame -/
+theorem join_answers_on_the_wire (code gen node port : Int) (proto leader member host assign topic : Bytes)
+    (ms : List (Bytes × Bytes)) (h1 : Fits 2 code) (h2 : Fits 4 gen) (h3 : proto.length < 32768)
+    (h4 : leader.length < 32768) (h5 : member.length < 32768) (h6 : ms.length < 2147483648) (h7 : ∀ m ∈ ms, MemberOK m)
+    (h8 : Fits 4 node) (h9 : host.length < 32768) (h10 : Fits 4 port) (h11 : assign.length < 2147483648) :
+    opRead (simpleOp "findCoordinator" KV.Gen.ConnLegacy.findCoordinatorResponseV0) 0 topic
+        ⟨encFind code node host port, (encFind code node host port).length⟩ = (concl code, ⟨[], 0⟩) ∧
+    opRead (simpleOp "joinGroup" KV.Gen.ConnLegacy.joinGroupResponse) 1 topic
+        ⟨encJoin code gen proto leader member ms, (encJoin code gen proto leader member ms).length⟩ = (concl code, ⟨[], 0⟩) ∧
+    opRead (simpleOp "syncGroup" KV.Gen.ConnLegacy.syncGroupResponseV0) 0 topic
+        ⟨encSync code assign, (encSync code assign).length⟩ = (concl code, ⟨[], 0⟩) :=
+  ⟨findCoordinator_conclusion code node port host topic h1 h8 h9 h10,
+   joinGroup_conclusion code gen proto leader member topic ms h1 h2 h3 h4 h5 h6 h7,
+   syncGroup_conclusion code assign topic h1 h11⟩
+
+/-- Heartbeat v0 / LeaveGroup v0 -/
+theorem heartbeat_answer_on_the_wire (code : Int) (hc : Fits 2 code) (topic : Bytes) :
+    opRead (simpleOp "heartbeat" KV.Gen.ConnLegacy.heartbeatResponseV0) 0 topic ⟨KV.Wire.encInt 2 code, 2⟩ =
+      ((if code = 0 then Outcome.ok else Outcome.kafka code), ⟨[], 0⟩) :=
+  errOnly_conclusion "heartbeat" _ rfl code hc topic
+
+end WireAnswers
 
 end KV.Group.C15
